@@ -169,3 +169,28 @@ Definition fit_function_nodes (k : kv) : res (list Q) :=
   let each := (1 + (kdeg k * knpts k + nspans - 1) / nspans)%nat in
   do x01 <- open_linspace each;
   Ok (concat (map (fun se : Q * Q => let (s, e) := se in map (fun x => Qred (s + (e - s) * x)) x01) (pairs ks))).
+
+(* BaseCurve.__or__: join two curves at max(left) = min(right) at the common degree; polynomial curves then clean
+   the junction knot, rational ones keep it with full multiplicity *)
+Definition c_join (a b : curve) : res curve :=
+  if negb (Qeqb (last_q (kvec (ckv a))) (first_q (kvec (ckv b)))) then Err ValueError else
+  match cP a, cP b with
+  | Some _, Some _ =>
+      let d := Nat.max (kdeg (ckv a)) (kdeg (ckv b)) in
+      do a' <- c_set_degree a d;
+      do b' <- c_set_degree b d;
+      match cP a', cP b' with
+      | Some Pa, Some Pb =>
+          do k <- make (firstn (knpts (ckv a')) (kvec (ckv a')) ++ kvec (ckv b')) None;
+          match cW a', cW b' with
+          | None, None => c_knot_clean (mkcurve k (Some (Pa ++ Pb)) None) (Some [last_q (kvec (ckv a))]) tol_kclean
+          | wa, wb =>
+              let ones n := repeat 1 n in
+              let Wa := match wa with Some w => w | None => ones (length Pa) end in
+              let Wb := match wb with Some w => w | None => ones (length Pb) end in
+              Ok (mkcurve k (Some (Pa ++ Pb)) (Some (Wa ++ Wb)))
+          end
+      | _, _ => Err TypeError
+      end
+  | _, _ => Err TypeError
+  end.
